@@ -297,6 +297,62 @@ def strip_model(s, chars, right):
     return mkstr(p)
 
 
+_PRED_TABLES = {}
+
+
+def _pred_ranges(name):
+    """code points c with getattr(chr(c), name)() true - scanned from the real str methods"""
+    if name not in _PRED_TABLES:
+        f = getattr(str, name)
+        _PRED_TABLES[name] = _ranges_of([c for c in range(0x110000) if f(chr(c))])
+    return _PRED_TABLES[name]
+
+
+def _blocks_ranges(kind):
+    """code points that make a string not islower() / not isupper() (cased characters of the other case)"""
+    key = "blocks_" + kind
+    if key not in _PRED_TABLES:
+        probe = "a" if kind == "islower" else "A"
+        f = getattr(str, kind)
+        _PRED_TABLES[key] = _ranges_of([c for c in range(0x110000) if not f(chr(c) + probe)])
+    return _PRED_TABLES[key]
+
+
+def model_str_pred(s, name):
+    """str.isalnum / isdigit / ... / islower / isupper on a symbolic string (dense or with optional slots)"""
+    s = SymStr.of(s)
+    if any(isinstance(q, Dec) for q in s.p):
+        s = s._dense()
+    items = []  # (present cond | True, char term | int)
+    for q in s.p:
+        if isinstance(q, Opt):
+            items.append((q.present, q.ch))
+        else:
+            items.append((True, q))
+
+    def holds(q, rs):
+        return z3.BoolVal(any(lo <= q <= hi for lo, hi in rs)) if isinstance(q, int) else in_ranges(q, rs)
+
+    def guard(p, c):
+        return c if p is True else z3.Implies(p, c)
+
+    def some(conds):
+        return z3.Or(conds) if conds else z3.BoolVal(False)
+
+    if name in ("islower", "isupper"):
+        cased = _pred_ranges(name)
+        blocks = _blocks_ranges(name)
+        ok = [guard(p, z3.Not(holds(q, blocks))) for p, q in items]
+        has = [holds(q, cased) if p is True else z3.And(p, holds(q, cased)) for p, q in items]
+        return mkbool(z3.And(ok + [some(has)]))
+    rs = _pred_ranges(name)
+    allc = [guard(p, holds(q, rs)) for p, q in items]
+    if name in ("isascii",):
+        return mkbool(z3.And(allc)) if allc else True
+    nonempty = some([z3.BoolVal(True) if p is True else p for p, q in items])
+    return mkbool(z3.And(allc + [nonempty]))
+
+
 def model_index(hay, needle):
     """concrete_str.index(symbolic single char)"""
     n = SymStr.of(needle)._dense()
